@@ -43,15 +43,18 @@ def oracle(c):
                 m, _ = base.match_criterion(x, w, params=base.params, cache=cache)
                 Tv.append(float(t)); Mv.append(float(m))
             rho = float(base.params["rho"])
-            order = sorted([k for k in range(nb) if Tv[k] > 0], key=lambda k: (-Tv[k], k))
-            exp = ("fresh", None)
-            for k in order:
-                up = (Mv[k] > rho) if strict else (Mv[k] >= rho)
-                lo = (Mv[k] > lb) if strict else (Mv[k] >= lb)
-                if up:
-                    exp = ("absorb", k); break
-                if lo:
-                    exp = ("split", k); break
+            def decide(order):
+                for k in order:
+                    up = (Mv[k] > rho) if strict else (Mv[k] >= rho)
+                    lo = (Mv[k] > lb) if strict else (Mv[k] >= lb)
+                    if up:
+                        return ("absorb", k)
+                    if lo:
+                        return ("split", k)
+                return ("fresh", None)
+            # the code visits only categories with positive activation; the property says "visits categories"
+            exp = decide(sorted([k for k in range(nb) if Tv[k] > 0], key=lambda k: (-Tv[k], k)))
+            exp_text = decide(sorted(range(nb), key=lambda k: (-Tv[k], k)))
         map_before = dict(est.map)
         ncl_before = est.n_clusters
         try:
@@ -60,6 +63,13 @@ def oracle(c):
             return fails
         lab = int(est.labels_[-1])
         na = len(base.W)
+        if has_w and exp_text != exp:
+            tk, kk = exp_text
+            ok_text = (tk == "absorb" and na == nb and lab == map_before[kk]) or \
+                      (tk == "split" and na == nb + 1 and lab == map_before[kk]) or (tk == "fresh" and lab == ncl_before)
+            if not ok_text:
+                fails.append(rep("nonpositive-activation-skipped",
+                                 f"sample {i}: category {kk} (activation <= 0) qualifies ({tk}) but the loop never visits it", i))
         if has_w:
             kind, k = exp
             if kind == "absorb" and not (na == nb and lab == map_before[k]):
@@ -114,6 +124,15 @@ def main():
         hashes.add(h)
         stats["modes"][c["ops"][0]["mode"]] = stats["modes"].get(c["ops"][0]["mode"], 0) + 1
         stats["with_veto"] += 1 if c["ops"][0].get("veto") else 0
+        fails.extend(oracle(c))
+    # directed bucket: disjoint samples (activation exactly 0) with rho_lower_bound = 0
+    from fractions import Fraction
+    for _ in range(20):
+        rows = [[Fraction(1), Fraction(0)], [Fraction(0), Fraction(1)]] + [rng.choice([[Fraction(1), Fraction(0)], [Fraction(0), Fraction(1)], [Fraction(1, 2), Fraction(1, 2)]]) for _ in range(3)]
+        c = {"k": {"kind": "Fuzzy", "rho": Fraction(rng.randrange(1, 9), 8), "alpha": Fraction(1, 1024), "beta": Fraction(1)}, "lb": Fraction(0),
+             "ops": [{"op": "fit", "X": rows, "mode": rng.choice(["MT+", "MT-", "MT1"]), "eps": Fraction(0), "veto": None}]}
+        est, obs = T.run_vcase(c)
+        strs.append(T.vcase_coq(c, obs)); summ.append(T.summary_v(c))
         fails.extend(oracle(c))
     codes, bad = flow.coq_corr("C13", "RunTopo", strs, shard=80, check_fn="vcheck", extra_imports="From ARTcorr Require Import RunBase RunSam.\n")
     for b in bad:
